@@ -73,6 +73,11 @@ def badUrl (u : String) : Bool :=
 
 def hasBadUrl (recs : List Rec) : Bool := (external recs).any fun r => badUrl r.url
 
+/-- the stream as a map of one-record aggregates keyed by the RAW endpoint (method, url) -/
+def singles (rs : List Rec) : EMap := rs.map fun r => ((r.method, r.url), single r)
+def singlesC (rs : List Rec) : CMap := rs.map fun r => ((consumerOf r.consumer, (r.method, r.url)), single r)
+def singlesI (rs : List Rec) : IMap := rs.map fun r => (interceptorOf r.interceptor, r.ts)
+
 /-! ### Equality "as maps" and the laws asked of a URL normaliser -/
 
 /-- Two aggregations hold the same statistics: for EVERY set of keys (given as a predicate) the entries in
@@ -135,6 +140,30 @@ def SecEq (a b : Sem) : Prop :=
   a.cnt = b.cnt ∧ a.sd = b.sd ∧ a.st = b.st ∧ (∀ c, a.stc c = b.stc c) ∧
   a.mn.map (· / 1000) = b.mn.map (· / 1000) ∧ a.mx / 1000 = b.mx / 1000
 
+/-- "The totals are preserved": for every set of methods `Q` (resp. of consumer-tag × method pairs) the
+    entries of `A` whose method lies in `Q` account — up to whole seconds in min/max — for exactly the
+    records `rs` with such a method: count, per-status counts, duration sums, earliest and latest time;
+    every interceptor carries the latest time of its records.  (Only the URL part of a key may differ.) -/
+def Totals (A : Agg) (rs : List Rec) : Prop :=
+  (∀ Q : String → Bool, SecEq (sem A.endpoints (fun k => Q k.1)) (sem (singles rs) (fun k => Q k.1))) ∧
+  (∀ Q : String × String → Bool,
+    SecEq (sem A.consumers (fun k => Q (k.1, k.2.1))) (sem (singlesC rs) (fun k => Q (k.1, k.2.1)))) ∧
+  (∀ P : IKey → Bool, (isem A.interceptors P).map (· / 1000) = (isem (singlesI rs) P).map (· / 1000))
+
+/-- all records fed to a run, in order -/
+def recsOf : List Seg → List Rec
+  | [] => []
+  | Seg.batch rs :: rest => rs ++ recsOf rest
+  | Seg.restart :: rest => recsOf rest
+
+/-- Side conditions of a run: no batch is rejected by `Run` (excluded class F15a), and whenever the state
+    file is read back (restart, or the final observation) the endpoint keys survive the `:::` split
+    (excluded class F15b). -/
+def RunOK {τ : Type} (N : Normaliser τ) (T0 : τ) : St τ → List Seg → Prop
+  | s, [] => KeysOK s.agg
+  | s, Seg.batch rs :: rest => stepFails N s.tree rs = false ∧ RunOK N T0 (stepS N s rs) rest
+  | s, Seg.restart :: rest => KeysOK s.agg ∧ RunOK N T0 { tree := T0, agg := restore s.file, file := s.file } rest
+
 /-! ### Observations -/
 
 /-- What one run left in the state file (times in whole seconds; `sumDur`/`sumTot` are not observable
@@ -164,10 +193,6 @@ def dedupS (l : List String) : List String :=
 def dedupN (l : List Nat) : List Nat :=
   l.foldl (fun acc s => if acc.contains s then acc else acc ++ [s]) []
 
-/-- the stream as a map of one-record aggregates keyed by the RAW endpoint (method, url) -/
-def singles (rs : List Rec) : EMap := rs.map fun r => ((r.method, r.url), single r)
-def singlesC (rs : List Rec) : CMap := rs.map fun r => ((consumerOf r.consumer, (r.method, r.url)), single r)
-def singlesI (rs : List Rec) : IMap := rs.map fun r => (interceptorOf r.interceptor, r.ts)
 
 /-- two summaries agree on what is observable in the file (counts, status counts for the listed codes,
     whole-second min/max); `a` is in seconds already, `b` in milliseconds -/
